@@ -358,6 +358,27 @@ func areaHostile(r *Rng, n int, dir string) (*AreaOut, error) {
 			out.Oracle = append(out.Oracle, OracleFailure{"C08", "bounded-stack", fmt.Sprintf("%s: goroutine stacks grew by %d MB while decoding %d KB", run.what, (after.StackInuse-before.StackInuse)>>20, len(msg)>>10), map[string]any{"element": hexs(run.elem), "count": run.n}})
 		}
 	}
+	// very many top-level elements: 250 000 tiny DBI messages with pairwise DISTINCT names (1.7 MB): time
+	// proportional to the input means well under a second; a decoder that compares every DBI with all earlier
+	// ones needs 3*10^10 comparisons
+	{
+		out.OracleN++
+		const nd = 250000
+		msg := make([]byte, 0, nd*8)
+		for j := 0; j < nd; j++ {
+			msg = append(msg, 0x1a, 0x06, 0x0a, 0x04, byte('a'+j%26), byte('a'+(j/26)%26), byte('a'+(j/676)%26), byte('a'+(j/17576)%26))
+		}
+		t0 := time.Now()
+		o := loadDataDecodeT(msg, 20*time.Second)
+		el := time.Since(t0)
+		hist(out.Hist, "many-distinct-dbis/"+o.Kind)
+		switch {
+		case o.Kind == "panic":
+			out.Oracle = append(out.Oracle, OracleFailure{"C08", "no-crash", "250000 distinct tiny DBIs: panic " + o.Msg, map[string]any{"count": nd}})
+		case o.Kind == "timeout" || el > 5*time.Second:
+			out.Oracle = append(out.Oracle, OracleFailure{"C08", "linear-time", fmt.Sprintf("250000 distinct tiny DBIs (%d KB): decoding took %v (%s); 25000 of them take a hundredth of that or less", len(msg)>>10, el, o.Kind), map[string]any{"count": nd}})
+		}
+	}
 	out.Cases = len(cases)
 	out.Distinct = len(nontriv)
 	if timeouts >= 4 {
